@@ -1,11 +1,13 @@
 PROP = dict(
     gen=[],
-    proof_files=["Properties/C10.v", "Proofs/CombinerProofs.v", "Spec/CombinerSpec.v", "Proofs/CombinerSetProofs.v", "Spec/CombinerSetSpec.v", "Proofs/CombinerOnce.v", "Proofs/ComposeCombine.v"],
+    proof_files=["Properties/C10.v", "Proofs/CombinerProofs.v", "Proofs/CombinerRound5.v", "Spec/CombinerSpec.v", "Proofs/CombinerSetProofs.v", "Spec/CombinerSetSpec.v", "Proofs/CombinerOnce.v", "Proofs/ComposeCombine.v"],
     model_files=["Model/Combiner.v", "Model/CombinerRun.v", "Model/ComposeBridge.v", "Model/ComposeCombineRun.v"],
     trusted=["Go value -> Gallina term printers harness/pdu_common.go (coqAddr, coqKVs8) and harness/c10.go (coqSeg, coqTrace)",
              "the oracle in harness/c10.go (judge) is the direct statement of C10 on an observed callback trace"],
     assumptions=["Go map semantics (one entry per key, struct keys compared field by field, strings octet by octet) are modelled as an association list with boolean key equality",
-                 "identity of a PDU = its pointer; the harness feeds a fresh pointer per arrival and numbers arrivals 1, 2, 3, ..."],
+                 "identity of a PDU = its pointer; the harness feeds a fresh pointer per arrival and numbers arrivals 1, 2, 3, ...",
+                 "on histories that hold malformed numbering, a malformed or over-long element or both elements in one PDU the property leaves the outcome open: the model case compares 'returns normally' and the callbacks of the keys whose segments are all well formed (chk_history_lenient)",
+                 "slice aliasing (the Go slice handed to the callback is the registry's backing array) is not in the model; it is the direct test combine/delivered-slice-changed-after-callback"],
 )
 GEN = {}
 ENGINE = {"name": "combiner", "path": "coq/Model/Combiner.v coq/Proofs/CombinerProofs.v harness/c10.go harness/c11.go",
@@ -19,6 +21,10 @@ MANIFEST = dict(
          "a PDU without concatenation element is delivered at once and alone; for every key the callbacks and stored state on any interleaved history are those of the "
          "single-message reference combiner on the sub-history of that key (traffic for other keys cannot add, remove, reorder or delay a delivery); every concatenated delivery "
          "holds all N segments in sequence order with one key; a delivery fires exactly when the arriving segment fills the last empty slot; key equality is equality of "
-         "(source, destination, reference); the legacy fmt.Sprint key is refuted by a collision witness.",
+         "(source, destination, reference); the legacy fmt.Sprint key is refuted by a collision witness. "
+         "Round 5: the 8-bit reference r and the 16-bit reference 0x00rr are one reference number under one key (C10_reference_forms_one_key, stated as intended behaviour); what is handed to the callback has no empty slot and "
+         "nothing still stored is such an array (C10_delivered_full, C10_delivered_not_stored); hdr is exactly what ConcatenatedHeader returns (C10_hdr_faithful). Tie extended to every class of reference value "
+         "(all 65,536 open at once), letter case / '+' / leading zeros / NUL in numbers, up to 5,000 (thorough 60,000) messages open at once (chk_open), two combiner instances, the delivered slice re-inspected after the run, "
+         "compose -> Marshal -> ReadPDU -> combine.",
     note="Trusted: Coq kernel + vm_compute; Go->Gallina printers; the harness oracle. Go maps modelled as association lists. No axioms.",
 )
